@@ -315,6 +315,49 @@ def judge_sym(ctx, case, R, M):
 # ---------------------------------------------------------------------------------------------- stream `import glue`
 
 
+def called_names(node) -> set[str]:
+    """names an expression calls as functions or reaches into as modules"""
+    out = set()
+    for n in ast.walk(node):
+        if isinstance(n, ast.Call) and isinstance(n.func, ast.Name):
+            out.add(n.func.id)
+        elif isinstance(n, ast.Attribute):
+            r = n
+            while isinstance(r, ast.Attribute):
+                r = r.value
+            if isinstance(r, ast.Name):
+                out.add(r.id)
+    return out
+
+
+def rename_params(params: list[str], called: list[str]) -> list[str]:
+    """the rule for parameters that would shadow a name the body calls (own statement of it): such a parameter gets
+    underscores appended until the name is neither a parameter, nor called, nor handed out before"""
+    taken, out = set(params) | set(called), []
+    for a in params:
+        if a in called:
+            n = a + "_"
+            while n in taken:
+                n += "_"
+            taken.add(n)
+            out.append(n)
+        else:
+            out.append(a)
+    return out
+
+
+def with_renamed_defs(x, called: dict):
+    """a resolved-call structure with every definition's parameters renamed by the rule above"""
+    if isinstance(x, dict):
+        if "def" in x and x["def"] is not None:
+            e, ps = x["def"]
+            x = dict(x, **{"def": [e, rename_params(ps, called.get(e, []))]})
+        return {k: with_renamed_defs(v, called) if k != "def" else v for k, v in x.items()}
+    if isinstance(x, list):
+        return [with_renamed_defs(v, called) for v in x]
+    return x
+
+
 def abstract_pmodel(pm, printer_fn, printer_inline):
     """pysbml's transformed model as the model's `PModel`; expressions become numbers, equal numbers = equal text"""
     import sympy
@@ -325,13 +368,45 @@ def abstract_pmodel(pm, printer_fn, printer_inline):
         text = ast.unparse(ast.parse(text, mode="eval"))
         return texts.setdefault(text, len(texts))
 
-    def body(expr):
-        src = printer_fn(fn_name="f", args=[], expr=expr)
-        ret = ast.parse(src).body[0].body[0]
-        return eid(ast.unparse(ret.value))
+    called: dict[int, list[str]] = {}
 
     def free(expr):
         return [i.name for i in expr.free_symbols if isinstance(i, sympy.Symbol)]
+
+    def body(expr):
+        src = printer_fn(fn_name="f", args=[], expr=expr)
+        ret = ast.parse(src).body[0].body[0]
+        text = ast.unparse(ret.value)
+        i = eid(text)
+        # the names the printed body calls / reaches into; a parameter of that name is renamed inside the written function
+        # (own reading of the rule, independent of the code under test): the body with the renamed parameters is the SAME
+        # expression
+        cn = sorted(called_names(ret.value))
+        called[i] = cn
+        fr = free(expr)
+        if set(fr) & set(cn):
+            taken, ren = set(fr) | set(cn), {}
+            for a in fr:
+                if a in cn:
+                    n = a + "_"
+                    while n in taken:
+                        n += "_"
+                    taken.add(n)
+                    ren[a] = n
+            tree = ast.parse(text, mode="eval")
+            callees = {id(n.func) for n in ast.walk(tree) if isinstance(n, ast.Call)}
+            roots = set()
+            for n in ast.walk(tree):
+                if isinstance(n, ast.Attribute):
+                    r = n
+                    while isinstance(r, ast.Attribute):
+                        r = r.value
+                    roots.add(id(r))
+            for n in ast.walk(tree):
+                if isinstance(n, ast.Name) and n.id in ren and id(n) not in callees and id(n) not in roots:
+                    n.id = ren[n.id]
+            texts.setdefault(ast.unparse(tree), i)
+        return i
 
     def coef(v):
         if isinstance(v, sympy.Float):
@@ -348,6 +423,7 @@ def abstract_pmodel(pm, printer_fn, printer_inline):
                       for k, r in pm.reactions.items()],
         "inits": [[k, body(e), free(e)] for k, e in pm.initial_assignments.items()],
     }
+    out["called"] = [[i, cn] for i, cn in sorted(called.items()) if cn]
 
     def expr_of(node):
         return texts.get(ast.unparse(node), -1)
@@ -400,7 +476,8 @@ def judge_glue(ctx, small, glue, M):
         ctx.hist["import glue: initial assignment on neither parameter nor variable"] = ctx.hist.get(
             "import glue: initial assignment on neither parameter nor variable", 0) + 1
     if components_distinct(sym):
-        ctx.judge(case, resolve_module(mod), spec_calls(sym), None,
+        called = {e: cn for e, cn in pmodel.get("called", [])}
+        ctx.judge(case, resolve_module(mod), with_renamed_defs(spec_calls(sym), called), None,
                   what="the module written by sbml.read: a reference does not resolve to the definition of its component")
     if M is not None and M.get("ok") != mod:
         ctx.add_drift(case, mod, M, "genModule (importSym pysbml-model) differs from the module sbml.read wrote")
